@@ -120,7 +120,22 @@ func (r serveRule) edge(tc *traceClient, x *core.TSCtx, from, to *ssa.BasicBlock
 	if !ok {
 		return q
 	}
-	b, ok := iff.Cond.(*ssa.BinOp)
+	cond := iff.Cond
+	// the test may be a predicate of the package: isCancelRequest(version) { return version == VersionCancel }
+	if call, isCall := cond.(*ssa.Call); isCall {
+		if h := core.StaticCallee(call); h != nil && tc.c.P.InPkg(h, "wire") && len(h.Blocks) == 1 && len(h.Params) >= 1 {
+			if rs := returns(h); len(rs) == 1 && len(rs[0].Results) == 1 {
+				if hb, isB := rs[0].Results[0].(*ssa.BinOp); isB {
+					_, xp := core.StripConv(hb.X).(*ssa.Parameter)
+					_, yp := core.StripConv(hb.Y).(*ssa.Parameter)
+					if xp || yp {
+						cond = hb
+					}
+				}
+			}
+		}
+	}
+	b, ok := cond.(*ssa.BinOp)
 	if !ok || (b.Op != token.EQL && b.Op != token.NEQ) {
 		return q
 	}
@@ -457,12 +472,47 @@ func (c *Ctx) c12Maps() {
 		}
 		// unconditional keys: their update dominates the emission loop
 		var rng *ssa.Range
-		for _, b := range wp.Blocks {
-			for _, in := range b.Instrs {
-				if r, ok := in.(*ssa.Range); ok {
-					rng = r
+		rangeOf := func(fn *ssa.Function) *ssa.Range {
+			var out *ssa.Range
+			for _, b := range fn.Blocks {
+				for _, in := range b.Instrs {
+					if r, ok := in.(*ssa.Range); ok {
+						out = r
+					}
 				}
 			}
+			return out
+		}
+		rng = rangeOf(wp)
+		// the emission may be a step of its own (announceParameters(ctx, writer, params)): the loop, the ParameterStatus
+		// frames and the context slot are then examined there, with the map being the parameter that receives it
+		efn := wp
+		var emitCall *ssa.Call
+		var emitParam *ssa.Parameter
+		if rng == nil {
+			for _, ci := range core.Calls(wp) {
+				call, isCall := ci.(*ssa.Call)
+				if !isCall {
+					continue
+				}
+				h := core.StaticCallee(call)
+				if h == nil || h == bfn || !c.P.InPkg(h, "wire") || h.Blocks == nil {
+					continue
+				}
+				if r := rangeOf(h); r != nil {
+					if prm, isP := r.X.(*ssa.Parameter); isP {
+						efn, emitCall, emitParam, rng = h, call, prm, r
+						R.Analysed(fname(h))
+					}
+				}
+			}
+		}
+		var rngAt ssa.Instruction // where the emission happens, in writeParameters' own body
+		if rng != nil {
+			rngAt = rng
+		}
+		if emitCall != nil {
+			rngAt = emitCall
 		}
 		// in writeParameters' terms the announced map is the builder's result
 		builtMap := theMap
@@ -476,7 +526,7 @@ func (c *Ctx) c12Maps() {
 					}
 				}
 			}
-			R.Check(builtMap != nil && rng != nil && core.InstrDominates(fillerCall, rng), "C12.R2", fkey(bfn)+":fills-before-emission", c.at(fillerCall), "the connection's parameters are set on the map before it is announced", "the filling helper receives the map and is called on every path to the emission loop", "the helper that sets the connection's parameters does not run on every path before the emission (or does not update the map it is handed)")
+			R.Check(builtMap != nil && rngAt != nil && core.InstrDominates(fillerCall, rngAt), "C12.R2", fkey(bfn)+":fills-before-emission", c.at(fillerCall), "the connection's parameters are set on the map before it is announced", "the filling helper receives the map and is called on every path to the emission loop", "the helper that sets the connection's parameters does not run on every path before the emission (or does not update the map it is handed)")
 		}
 		if builderCall != nil {
 			builtMap = builderCall
@@ -500,7 +550,17 @@ func (c *Ctx) c12Maps() {
 				R.Check(same, "C12.R2", fkey(bfn)+":returns-built-map", c.at(r), "the helper that builds the session parameters returns the map it built", "result is the updated map", "the helper returns a map other than the one that received the updates")
 			}
 		}
-		if rng == nil || theMap == nil || rng.X != builtMap {
+		// the map the emission step works on, in that step's terms
+		emap := builtMap
+		if emitCall != nil {
+			emap = nil
+			for i, hp := range efn.Params {
+				if hp == emitParam && i < len(emitCall.Call.Args) && emitCall.Call.Args[i] == builtMap {
+					emap = emitParam
+				}
+			}
+		}
+		if rng == nil || theMap == nil || emap == nil || rng.X != emap {
 			R.Fail("C12.R2", "writeParameters:emission-ranges-over-map", c.atFn(wp), "one ParameterStatus is emitted per entry of the parameter map (range over that map)", "the emission loop is not a range over the map that received the updates: entries can be duplicated or skipped")
 		} else {
 			R.OK("C12.R2", "writeParameters:emission-ranges-over-map", c.at(rng), "one ParameterStatus is emitted per entry of the parameter map (range over that map)", "ssa.Range over the updated map")
@@ -514,7 +574,7 @@ func (c *Ctx) c12Maps() {
 					if key == "server_version" || copyLoopUpdate(mu) {
 						continue
 					}
-					before := bfn == wp && core.InstrDominates(mu, rng)
+					before := bfn == wp && rngAt != nil && core.InstrDominates(mu, rngAt)
 					if bfn != wp {
 						before = true
 						for _, r := range returns(bfn) {
@@ -600,7 +660,7 @@ func (c *Ctx) c12Maps() {
 				}
 				return false
 			}
-			for _, ci := range core.Calls(wp) {
+			for _, ci := range core.Calls(efn) {
 				if isWriterMethod(ci, "AddString") {
 					if isEntry(ci.Common().Args[1]) {
 						okKV++
@@ -629,9 +689,9 @@ func (c *Ctx) c12Maps() {
 			// the context slot receives this map
 			ssp := c.P.Func("wire", "setServerParameters")
 			n := 0
-			for _, ci := range callsIn(wp, calleeIs(ssp)) {
+			for _, ci := range callsIn(efn, calleeIs(ssp)) {
 				n++
-				R.Check(ci.Common().Args[1] == builtMap, "C12.R2", "writeParameters:context-slot", c.at(ci), "the announced parameters are what handlers later read as server parameters", "setServerParameters receives the announced map", "setServerParameters receives a different map than the one announced")
+				R.Check(ci.Common().Args[1] == emap, "C12.R2", "writeParameters:context-slot", c.at(ci), "the announced parameters are what handlers later read as server parameters", "setServerParameters receives the announced map", "setServerParameters receives a different map than the one announced")
 			}
 			R.Floor("C12.R2", "setServerParameters calls in writeParameters", n, 1)
 		}
